@@ -1,4 +1,7 @@
 use std::sync::Arc;
+#[cfg(feature = "verif")]
+use crate::verif_locks::RwLock;
+#[cfg(not(feature = "verif"))]
 use tokio::sync::RwLock;
 
 use emmylua_code_analysis::EmmyLuaAnalysis;
